@@ -13,6 +13,7 @@ CONSTANTS
   CapSet = {2}
   RetSet = {0, 2}
   CompactSet = {FALSE, TRUE}
+  AgeSet = {0, 3}
   Keys = {"a", "nil"}
 VIEW GenView
 CHECK_DEADLOCK FALSE
